@@ -1,6 +1,8 @@
 mod alloc;
 mod c04;
 mod c11;
+mod c12;
+mod sched;
 mod canon;
 mod engine;
 mod entropy;
@@ -46,6 +48,7 @@ fn main() {
             match ctx.prop.as_str() {
                 "C11" => c11::run_shard(&ctx, &mut rep),
                 "C04" => c04::run_shard(&ctx, &mut rep),
+                "C12" => c12::run_shard(&ctx, &mut rep),
                 _ => {
                     eprintln!("unknown property");
                     std::process::exit(2);
@@ -67,6 +70,7 @@ fn main() {
             let r = match prop.as_str() {
                 "C11" => c11::replay(&j["scenario"]),
                 "C04" => c04::replay(&j["scenario"]),
+                "C12" => c12::replay(&j["scenario"]),
                 _ => Err(format!("unknown property {}", prop)),
             };
             match r {
@@ -97,6 +101,7 @@ fn meta_of(prop: &str) -> Option<engine::CheckMeta> {
     match prop {
         "C11" => Some(c11::meta()),
         "C04" => Some(c04::meta()),
+        "C12" => Some(c12::meta()),
         _ => None,
     }
 }
